@@ -254,7 +254,7 @@ def gen_tree(rng, depth, dirty, maxports=5, leaf_maxhash=1):
     return t
 
 
-# ---- names_ok: the decidable hypothesis of C09_dispatchable / C18_lookup -----------------
+# ---- names_ok: the decidable hypothesis of C09_dispatchable / C18_lookup_names_ok_partial -----------------
 # (a line-by-line mirror of coq/Ports/NamesOk.v; the driver prints the value the
 #  extracted function gives, the plug-ins compare)
 def _litchar(c):
